@@ -1,7 +1,6 @@
 import LinfaSpec.Drv.C01
 import LinfaSpec.Drv.C02
 import LinfaSpec.Drv.C03
-import LinfaSpec.Drv.C04
 import LinfaSpec.Drv.C05
 import LinfaSpec.Drv.C06
 import LinfaSpec.Drv.C07
@@ -16,7 +15,6 @@ import LinfaSpec.Drv.C15
 import LinfaSpec.Drv.C16
 import LinfaSpec.Drv.C17
 import LinfaSpec.Drv.C18
-import LinfaSpec.Drv.C19
 import LinfaSpec.Drv.C20
 
 namespace LinfaSpec.Drv
@@ -26,7 +24,6 @@ def dispatch : List String → String
   | "C01" :: rest => C01.handle rest
   | "C02" :: rest => C02.handle rest
   | "C03" :: rest => C03.handle rest
-  | "C04" :: rest => C04.handle rest
   | "C05" :: rest => C05.handle rest
   | "C06" :: rest => C06.handle rest
   | "C07" :: rest => C07.handle rest
@@ -41,7 +38,6 @@ def dispatch : List String → String
   | "C16" :: rest => C16.handle rest
   | "C17" :: rest => C17.handle rest
   | "C18" :: rest => C18.handle rest
-  | "C19" :: rest => C19.handle rest
   | "C20" :: rest => C20.handle rest
   | _ => "bad-op"
 
